@@ -100,6 +100,29 @@ SubstF(f, idm, stm) ==
     IF f = <<>> THEN <<>>
     ELSE SubstN(Head(f), idm, stm) \o SubstF(Tail(f), idm, stm)
 
+(* The same on inputs that are NOT trees (one node object at several        *)
+(* positions, as they exist between an accepted sharing step and the next   *)
+(* re-duplication): an identity key designates ONE occurrence - the first   *)
+(* one met in pre-order outside replaced subtrees - and is consumed by it   *)
+(* (nodes.substitute: repl.pop).  `used` = identity keys consumed so far;   *)
+(* the result is <<sequence of 0 or 1 nodes, used'>>.  On trees this is     *)
+(* SubstN/SubstF (theorem-like invariant ConsumingAgreesOnTrees).           *)
+RECURSIVE SubstNC(_, _, _, _), SubstFC(_, _, _, _)
+SubstNC(n, idm, stm, used) ==
+    IF n.id \in DOMAIN idm /\ n.id \notin used
+    THEN <<IF idm[n.id] = Del THEN <<>> ELSE <<idm[n.id]>>, used \cup {n.id}>>
+    ELSE LET sr == StructRepl(n, stm)
+         IN IF sr[1] THEN <<IF sr[2] = Del THEN <<>> ELSE <<sr[2]>>, used>>
+            ELSE IF IsLeaf(n) THEN <<<<n>>, used>>
+            ELSE LET r == SubstFC(n.k, idm, stm, used)
+                 IN <<IF r[1] = n.k THEN <<n>> ELSE <<ListN(0, r[1])>>, r[2]>>
+SubstFC(f, idm, stm, used) ==
+    IF f = <<>> THEN <<<<>>, used>>
+    ELSE LET a == SubstNC(Head(f), idm, stm, used)
+             b == SubstFC(Tail(f), idm, stm, a[2])
+         IN <<a[1] \o b[1], b[2]>>
+SubstConsuming(f, idm, stm) == SubstFC(f, idm, stm, {})[1]
+
 (* Declarations are inserted after the maximal set-logic/set-info prefix.   *)
 IsPrefixCmd(n, prefixHeads) ==
     ~IsLeaf(n) /\ Len(n.k) > 0 /\ IsLeaf(n.k[1]) /\ n.k[1].d \in prefixHeads
